@@ -1173,3 +1173,45 @@ def as1(P, C):
     if n == 0:
         raise core.AnalysisBroken("AS-1: no assertion found in the evaluation code (built with -UNDEBUG?)")
     return n
+
+
+def kb9(P, C):
+    """KB-9: stack arrays sized by the spline order need a bound on the order of every table a read can return."""
+    C.rule("KB-9", "lookup and evaluation keep scratch in variable-length stack arrays whose extents grow with the spline order (local basis, "
+           "delta_l/delta_r of the recurrence, the gradient's lane tables): they are bounded only if the reader bounds ORDERn — a throwing "
+           "guard `order[i] > K` with a constant K in read_fits_core (or where the order keys are read). A file that is consistent in every "
+           "other respect (coefficient count = knot count - order - 1 >= order + 1) may announce any order; evaluation of the table it loads "
+           "then overruns the stack", floor=1)
+    from . import vg
+    sized = []
+    for f in P.functions.values():
+        if f.unit != "driver" or f.name not in VLA_FUNCS or "/include/photospline/" not in f.file:
+            continue
+        for i in f.walk():
+            if f.k(i) != "DeclStmt":
+                continue
+            for d in f.nodes[i]["decls"]:
+                if d.get("vla") and any(e >= 0 and re.search(r"order|degree|\bn\b", f.render(e)) for e in d.get("extents", [])):
+                    sized.append((f, i, d["name"]))
+    if len(sized) < 10:
+        raise core.AnalysisBroken("KB-9: expected the order-sized stack arrays of the evaluation path, found %d" % len(sized))
+    fs_ = [g for g in P.fns("read_fits_core") if g.unit == "driver"]
+    if not fs_:
+        raise core.AnalysisBroken("KB-9: read_fits_core not found")
+    f = fs_[0]
+    bound = None
+    for g in vg.guards_of(f):
+        for x in f.walk(f.nodes[g["node"]]["cond"]):
+            n = f.nodes[x]
+            if n["k"] == "BinaryOperator" and n.get("op") in ("<", "<=", ">", ">="):
+                a, b = (f.strip(y) for y in n["ch"])
+                ra, rb = f.render(a).replace("this->", ""), f.render(b).replace("this->", "")
+                # normal form N2: `K < order[i]` / `K <= order[i]`
+                if re.match(r"order\[\w+\]$", rb) and "cv" in f.nodes[a]:
+                    bound = (g, f.nodes[a]["cv"])
+                if re.match(r"order\[\w+\]$", ra) and "cv" in f.nodes[b] and n["op"] in (">", ">="):
+                    bound = (g, f.nodes[b]["cv"])
+    C.ob("KB-9", "read_fits_core", "order-bounded", bound is not None, f.where(),
+         "the reader refuses orders above %s: the %d order-sized stack arrays of the evaluation path are bounded" % (bound[1], len(sized)) if bound else
+         "the reader accepts any ORDERn that is consistent with the knot and coefficient counts; %d stack arrays of lookup and evaluation are sized by it "
+         "(e.g. %s in %s): a consistent file with a large enough order makes evaluation overrun the stack" % (len(sized), sized[0][2], sized[0][0].name))
